@@ -201,6 +201,36 @@ def ob_stale_cache(h):
     _check_view(h, c, [a, b], "after_setter")
 
 
+def ob_sort_key(h):
+    """set_sort_key with every documented form of key: iteration (and get_index) follow the key, lexicographically for a list of
+    attribute names, in the requested direction."""
+    form = h.choice("key_form", ["attribute_name", "list_of_one", "list_of_two", "list_of_two_swapped", "callable"])
+    reverse = h.choice("reverse", [False, True])
+    c = StreamCollection()
+    ms = []
+    for i, n in enumerate(("a", "b", "c")):
+        ts, tt = h.real(f"m{i}_ts"), h.real(f"m{i}_tt")
+        h.assume(ts > tt)
+        m = Stream(n, ts, tt, heat_flow=100.0)
+        ms.append(m)
+        c.add(m)
+    list(c)                                          # a sorted view exists before the key changes
+    key = {"attribute_name": "t_target", "list_of_one": ["t_target"], "list_of_two": ["t_target", "t_supply"], "list_of_two_swapped": ["t_supply", "t_target"],
+           "callable": (lambda s: s.t_target)}[form]
+    c.set_sort_key(key, reverse=reverse)
+    it = list(c)
+    h.check("same_members", sorted(map(id, it)) == sorted(map(id, ms)))
+    prim = (lambda s: s.t_supply) if form == "list_of_two_swapped" else (lambda s: s.t_target)
+    sec = {"list_of_two": (lambda s: s.t_supply), "list_of_two_swapped": (lambda s: s.t_target)}.get(form)
+    for x, y in zip(it, it[1:]):
+        a, b = (y, x) if reverse else (x, y)        # a must not come after b in ascending order
+        h.check("ordered_by_the_first_key", prim(a) <= prim(b))
+        if sec is not None:
+            h.check("ties_on_the_first_key_ordered_by_the_second", Implies(h.eq(prim(a), prim(b)), sec(a) <= sec(b)))
+    for m in ms:
+        h.check("index_is_position", it[c.get_index(m)] is m)
+
+
 def ob_index(h):
     c = StreamCollection()
     ms = [_mk_stream(h, i, n) for i, n in enumerate(("a", "b", "c"))]
@@ -240,5 +270,8 @@ def obligations():
     obs.append(Obligation("C19.coll.replace.b", ob_replace, kind="bounded", bound="1..3 members, names from {a, b, a_1}", functions=[StreamCollection.replace]))
     obs.append(Obligation("C19.coll.cache.b", ob_stale_cache, kind="bounded", bound="2 members, one key reassigned after an iteration",
                           functions=[StreamCollection._ensure_sorted, Stream.t_supply.fset]))
+    obs.append(Obligation("C19.coll.sort_key.b", ob_sort_key, kind="bounded", bound="3 members with symbolic temperatures; key given as attribute name, list of one / two names, callable; both directions",
+                          functions=[StreamCollection.set_sort_key, StreamCollection._ensure_sorted, StreamCollection.get_index], max_paths=200000,
+                          doc="every documented form of sort key orders the iteration (lexicographic for lists)"))
     obs.append(Obligation("C19.coll.index.b", ob_index, kind="bounded", bound="3 members, symbolic sort keys", functions=[StreamCollection.get_index, StreamCollection.__getitem__]))
     return obs
